@@ -9,7 +9,7 @@ CONSTANTS
   Modes = {"S", "R", "D"}
   Vers = {"zero", "p2", "new", "max"}
   Ports <- PortsAll
-  Shapes = {"none", "short", "s00", "s10", "s20", "d15"}
+  Shapes = {"none", "short", "s00", "s10", "s20", "d15", "p11"}
   TsSet = {1, 2, 3}
   PartKinds = {"inmarker", "marker", "mode", "ver2", "badmode", "gover", "lower"}
   Markers = {"Saved", "Cancelled", "Stopped", "Interrupted", "CFG"}
